@@ -11,9 +11,15 @@ M2 (`KmipModel/Prim.lean`, Python-faithful primitives).  One JSON object per inp
       ("reqver":[major,minor] = protocol version of the decoded request, or null) and "faults":[…] is added
   {"op":"enc","ty":N,"tag":N,"v":V}
       V = decimal string (ty 2,3,4,5,9,10) | bool (6) | [code points] (7) | hex (8)
-      {"constructible":B,"py":{"ok":H}|{"err":E},"spec":H|null}
+      {"constructible":B,"py":{"ok":H}|{"err":E},"pyre":H|null,"spec":H|null}
+      pyre = M2 `pyReencode`: what an object filled by read() (not by the constructor) writes
       py = M2 `pyEncode`; spec = M1 `encode` of the same value read as the specification does
       (Text String = UTF-8 of the code points), null when the specification has no encoding for it
+  {"op":"schemas"}                       names of the M3 schema table
+  {"op":"schema","name":S,"ver":N,"hex":H}
+      M3: strict M1 parse, then `Kmip.Schema.decodeS` of the named schema under version N (10..20):
+      {"ok":true,"counts":[items per field],"stable":B}  (stable: writer output of the decoded value = the input)
+      {"ok":false,"why":"ttlv"|"schema"}
   {"op":"dec","ty":N,"tag":N,"members":[N…]|null,"hex":H}
       M2 `pyDecode`: {"ok":true,"v":V,"rest":N} | {"ok":false,"err":E}
 -/
@@ -21,6 +27,7 @@ import Lean.Data.Json
 import KmipModel.TTLV
 import KmipModel.Prim
 import KmipModel.Envelope
+import KmipModel.Schemas
 open Lean Kmip.TTLV Kmip.Prim
 
 abbrev P := Except String
@@ -151,7 +158,28 @@ def step (line : String) : String :=
         let spec := match specVal v with
           | some pv => if decide (pv.Valid) ∧ tagOk tag then Json.str (hex (encode (.prim tag pv))) else Json.null
           | none => Json.null
-        pure (Json.mkObj [("constructible", Json.bool (decide v.constructible)), ("py", py), ("spec", spec)])
+        let pyre := match pyReencode tag v with
+          | .ok bs => Json.str (hex bs)
+          | .error _ => Json.null
+        pure (Json.mkObj [("constructible", Json.bool (decide v.constructible)), ("py", py), ("pyre", pyre),
+                          ("spec", spec)])
+      | "schemas" => pure (Json.arr (Kmip.Schema.schemas.map (fun s => Json.str s.name)).toArray)
+      | "schema" => do
+        let name ← asStr (jget j "name")
+        let ver ← asNat (jget j "ver")
+        let bs ← unhex (← asStr (jget j "hex"))
+        match Kmip.Schema.schemaByName name with
+        | none => throw s!"schema {name}"
+        | some sc =>
+          match decodeAll bs with
+          | none => pure (Json.mkObj [("ok", Json.bool false), ("why", "ttlv")])
+          | some i =>
+            match Kmip.Schema.decodeS sc ver i with
+            | none => pure (Json.mkObj [("ok", Json.bool false), ("why", "schema")])
+            | some x =>
+              pure (Json.mkObj [("ok", Json.bool true),
+                                ("counts", Json.arr (x.map (fun l => Json.num l.length)).toArray),
+                                ("stable", Json.bool (encode (Kmip.Schema.encodeS sc ver x) == bs))])
       | "dec" => do
         let ty ← asNat (jget j "ty")
         let tag ← asNat (jget j "tag")
